@@ -177,7 +177,12 @@ def judgeBufStep (mode : Nat) (j : JB) (prev next : Step) (ln txt : Bytes) : JB 
       let msg := str next.msg
       if (base == "e" || base == "ew") && next.rc == 0 && (msg.contains "[r]" || (bufById prev b.id).isNone) then
         -- the buffer was (re)loaded from its file, or created for a file that does not exist
-        let j := setGhost j { g with disk := some (if msg.contains "[r]" then b.text else []), savedAt := some b.histU }
+        -- what the file holds now is what was read (no write happened in a load step); the dumped file
+        -- content is used so that further commands on the same line do not blur the picture
+        let rd := match fileOf next b.path with
+          | some d => (if d.isEmpty || d.getLast? == some 10 then d else d ++ [10])
+          | none => if msg.contains "[r]" then b.text else []
+        let j := setGhost j { g with disk := some (if single then (if msg.contains "[r]" then b.text else []) else rd), savedAt := some b.histU }
         { j with fs := { j.fs with touched := j.fs.touched.filter (· != b.path) } }
       else j
   -- a successful write concerns the buffer that was current when the command started
@@ -222,6 +227,55 @@ def applyDirective (j : JB) (ln : Bytes) : JB :=
         | _ => (0, 101)) } }
   | _ => j
 
+/-! ### C04 at the editor level: one undo step per command, per buffer -/
+structure UZ where
+  id : Int
+  past : List Bytes := []
+  future : List Bytes := []
+  ok : Bool := true          -- false = the reference lost track (multi-command undo lines)
+
+structure J04 where
+  zs : List UZ := []
+  errs : List String := []
+
+def uzOf (j : J04) (id : Int) : UZ := (j.zs.find? (·.id == id)).getD { id := id }
+def setUz (j : J04) (z : UZ) : J04 := { j with zs := z :: j.zs.filter (·.id != z.id) }
+
+def judge04Step (j : J04) (prev next : Step) (ln : Bytes) : J04 :=
+  let single := isSingle ln
+  let cmd := cmdName ln
+  let mentionsUndo := (str ln).contains "u" || (str ln).contains "redo"
+  next.bufs.foldl (fun j b =>
+    match bufById prev b.id with
+    | none => setUz j { id := b.id }
+    | some a =>
+      let z := uzOf j b.id
+      let isCur := b.slot == 0 || a.slot == 0
+      if single && cmd == "u" && isCur && a.slot == 0 then
+        if !z.ok then j else
+        (match z.past with
+         | [] =>
+           let j := if a.text == b.text then j else { j with errs := j.errs ++ [s!"clause=undo_at_bottom_fails_unchanged u changed buffer {b.id} although no command is left to undo"] }
+           j
+         | p :: ps =>
+           let j := if b.text == p then j else
+             { j with errs := j.errs ++ [s!"clause=undo_exact after {str ln}: buffer {b.id} want={bytesHex p} got={bytesHex b.text}"] }
+           setUz j { z with past := ps, future := a.text :: z.future })
+      else if single && cmd == "redo" && a.slot == 0 then
+        if !z.ok then j else
+        (match z.future with
+         | [] =>
+           if a.text == b.text then j else { j with errs := j.errs ++ [s!"clause=redo_at_top_fails_unchanged redo changed buffer {b.id}"] }
+         | f :: fs =>
+           let j := if b.text == f then j else
+             { j with errs := j.errs ++ [s!"clause=redo_exact after {str ln}: buffer {b.id} want={bytesHex f} got={bytesHex b.text}"] }
+           setUz j { z with past := a.text :: z.past, future := fs })
+      else if a.text != b.text || a.histU != b.histU || a.histN != b.histN then
+        if !single && mentionsUndo then setUz j { z with ok := false }
+        else if b.histN == 0 && b.histU == 0 then setUz j { id := b.id }      -- history cleared (file opened)
+        else setUz j { z with past := a.text :: z.past, future := [] }
+      else j) j
+
 /-! ### the stream judge -/
 def judge (mode : Nat) (kv : KV) : Verdict :=
   let base := ExD.judge 0 kv
@@ -250,11 +304,11 @@ def judge (mode : Nat) (kv : KV) : Verdict :=
         | some b => setGhost initB { id := b.id, disk := some (if (str st0.msg).contains "[r]" then b.text else []), text := b.text,
                                      row := st0.xrow, dirty := b.dirty, histU := b.histU, histN := b.histN, savedAt := some b.histU }
         | none => initB
-      let (_, j06, e14, jb, _) := (items.zip rest).foldl
-        (fun (acc : Step × J06 × List String × JB × Bytes) (x : Item × String) =>
-          let (prev, j06, e14, jb, lastPat) := acc
+      let (_, j06, e14, jb, _, j04) := (items.zip rest).foldl
+        (fun (acc : Step × J06 × List String × JB × Bytes × J04) (x : Item × String) =>
+          let (prev, j06, e14, jb, lastPat, j04) := acc
           match x.1 with
-          | Item.dir ln => (prev, j06, e14, applyDirective jb ln, lastPat)
+          | Item.dir ln => (prev, j06, e14, applyDirective jb ln, lastPat, j04)
           | Item.cmd ln txt =>
             match parseStep x.2 with
             | none => acc
@@ -262,9 +316,10 @@ def judge (mode : Nat) (kv : KV) : Verdict :=
               let j06' := if mode == 6 then judge06Step j06 prev next ln txt icase else j06
               let (e, lp) := if mode == 14 then judge14Step prev next ln icase lastPat else ([], lastPat)
               let jb' := if mode == 2 || mode == 3 || mode == 20 then judgeBufStep mode jb prev next ln txt else jb
-              (next, j06', e14 ++ e, jb', lp))
-        (st0, init06, [], initB, [])
-      let sf := if mode == 6 then j06.errs else if mode == 14 then e14 else jb.errs
+              let j04' := if mode == 4 then judge04Step j04 prev next ln else j04
+              (next, j06', e14 ++ e, jb', lp, j04'))
+        (st0, init06, [], initB, [], ({} : J04))
+      let sf := if mode == 6 then j06.errs else if mode == 14 then e14 else if mode == 4 then j04.errs else jb.errs
       { base with specfails := (sf.take 3).map (fun s => (s.take 500).toString) }
 
 end Neatvi.Drive.ExJ
